@@ -660,8 +660,8 @@ func c12DiffCases(c *Ctx, run *c12Runner) error {
 			for nl := 0; nl <= L; nl++ {
 				for nv := 0; nv < 1<<uint(nl); nv++ {
 					for p := 0; p <= 6; p++ {
-						// with |old| <= 3 every partition count normalises to 1: keep 0, 1 and one large value
-						if ol <= 3 && p >= 2 && p != 5 {
+						// a partition count >= |old|-1 normalises to 1: of those keep 0, 1 and one large value (5 or 6)
+						if p >= 2 && p > ol-2 && p != 5+ol/5 {
 							continue
 						}
 						cs := &c12Case{old: c12Bits(ov, ol), nw: c12Bits(nv, nl), partitions: p, class: fmt.Sprintf("exh/o%d/n%d", ol, nl), group: "bsd"}
@@ -711,7 +711,7 @@ func c12DiffCases(c *Ctx, run *c12Runner) error {
 			piece, _ := c12Derive(cr, o, 4096)
 			nw = append(nw, piece...)
 		}
-		if err := c12RunDiffCase(c, run, &c12Case{old: o, nw: nw, partitions: cr.Intn(2), procs: []int{0, 2, 8}[cr.Intn(3)], class: "big/more-blocks-than-workers", deadline: 600}); err != nil {
+		if err := c12RunDiffCase(c, run, &c12Case{old: o, nw: nw, partitions: cr.Intn(2), procs: []int{0, 2, 8}[cr.Intn(3)], class: "big/more-blocks-than-workers", deadline: 100}); err != nil {
 			return err
 		}
 		o = cr.Bytes(100*1024 + cr.Intn(1000))
@@ -722,7 +722,7 @@ func c12DiffCases(c *Ctx, run *c12Runner) error {
 			}
 		}
 		nw = append(nw[:70000], nw[70000+cr.Intn(500):]...)
-		if err := c12RunDiffCase(c, run, &c12Case{old: o, nw: nw, partitions: cr.Range(0, 3), class: "big/add-longer-than-copy-buffer", deadline: 600}); err != nil {
+		if err := c12RunDiffCase(c, run, &c12Case{old: o, nw: nw, partitions: cr.Range(0, 3), class: "big/add-longer-than-copy-buffer", deadline: 100}); err != nil {
 			return err
 		}
 	}
